@@ -101,7 +101,7 @@ def DataFrame_split_join_by_signature : List String := ["self", "*by"]
 
 /-- dataiter/data_frame.py: DataFrame._get_join_indices (sha256 of the function source: 03068a1b581400ad) -/
 def DataFrame_get_join_indices (truth : Term → Bool) : Out :=
-  let other_ids' : Term := (Term.app "list" [(Term.app "zip" [(Term.app "*" [(Term.app "ListComp" [(Term.app "getitem" [(Term.sym "other"), (Term.sym "x")]), (Term.app "in" [(Term.sym "x"), (Term.sym "by2"), (Term.app "if" [])])])])])]);
+  let other_ids' : Term := (Term.app "list()" [(Term.app "zip" [(Term.app "*" [(Term.app "ListComp" [(Term.app "getitem" [(Term.sym "other"), (Term.sym "x")]), (Term.app "in" [(Term.sym "x"), (Term.sym "by2"), (Term.app "if" [])])])])])]);
   let other_by_id' : Term := (Term.app "DictComp" [(Term.app "pair" [(Term.app "getitem" [other_ids', (Term.sym "i")]), (Term.sym "i")]), (Term.app "in" [(Term.sym "i"), (Term.app "range" [(Term.app ".nrow" [(Term.sym "other")])]), (Term.app "if" [])])]);
   let self_ids' : Term := (Term.app "zip" [(Term.app "*" [(Term.app "ListComp" [(Term.app "getitem" [(Term.sym "self"), (Term.sym "x")]), (Term.app "in" [(Term.sym "x"), (Term.sym "by1"), (Term.app "if" [])])])])]);
   let src' : Term := (Term.app "map" [(Term.app "lambda" [(Term.app "params" [(Term.sym "x")]), (Term.app ".get" [other_by_id', (Term.sym "x"), (Term.int (-(1 : Int)))])]), self_ids']);
